@@ -30,6 +30,7 @@ import shutil
 import tempfile
 
 from . import _c10ext
+from . import _c10ext5
 
 LEVEL = "proof"
 RULE = ("histories on SHARED argument objects of seeded data sets (3-4 chromosomes, 80-250 bins; raw coverages sorted / "
@@ -1366,6 +1367,8 @@ def run_impl(case):
     op = case["op"]
     if op in _c10ext.OPS:
         return _c10ext.run_impl(_self(), case)
+    if op in _c10ext5.OPS:
+        return _c10ext5.run_impl(_self(), case)
     if op == "history":
         return _run_history(case)
     if op == "ensure_path":
@@ -1385,6 +1388,8 @@ def to_line(case, impl):
     op, i = case["op"], case["in"]
     if op in _c10ext.OPS:
         return _c10ext.to_line(_self(), case, impl)
+    if op in _c10ext5.OPS:
+        return _c10ext5.to_line(_self(), case, impl)
     if _failed(impl):
         impl_j = None
     if op == "history":
@@ -1414,6 +1419,8 @@ def judge(case, impl, resp):
     op, out = case["op"], resp["out"]
     if op in _c10ext.OPS:
         return _c10ext.judge(_self(), case, impl, resp)
+    if op in _c10ext5.OPS:
+        return _c10ext5.judge(_self(), case, impl, resp)
     spec_fail = list(resp.get("spec") or [])
     disagree = []
     if op == "history":
@@ -1446,6 +1453,8 @@ def nontrivial(case, impl, resp):
     op, i = case["op"], case["in"]
     if op in _c10ext.OPS:
         return _c10ext.nontrivial(_self(), case, impl, resp)
+    if op in _c10ext5.OPS:
+        return _c10ext5.nontrivial(_self(), case, impl, resp)
     if op == "history":
         return len(i["steps"]) >= 2 or any("@p" in s["name"] for s in i["steps"])
     if op == "ensure_path":
@@ -1610,6 +1619,7 @@ def gen_cases(rng, tier):
     for _ in range(n_ga):
         cases.append(_gather_case(rng))
     cases += _c10ext.gen_cases(_self(), rng, tier, dss)   # round 4: library draws, alias probes (after the others: case i of seed s stays case i)
+    cases += _c10ext5.gen_cases(_self(), rng, tier, dss)  # round 5: real commands into one output path, four spellings
     only = os.environ.get("C10_ONLY")  # development (mutation runs): keep only the cases whose tag contains one of these
     if only:
         cases = [c for c in cases if any(t in str(c.get("tag", "")) for t in only.split(","))]
@@ -1641,6 +1651,7 @@ def corpus():
         cs.append({"op": "ensure_path", "tag": "corpus", "in": {"pre": [[n, "pre:" + n] for n in pre], "path": "out.cnn",
                                                                "writes": k, "guarded": True}})
     cs += _c10ext.corpus(_self())
+    cs += _c10ext5.corpus(_self())
     return cs
 
 
